@@ -62,6 +62,8 @@ type unsupported struct{ msg string }
 func (u unsupported) Error() string { return u.msg }
 
 type FV struct {
+	funcConstNames []string
+	funcCands map[types.Object][]funcCand // locals that only ever hold known functions
 	w     *World
 	fi    *FuncInfo
 	pkg   *types.Package
